@@ -405,7 +405,7 @@ func (x *Exec) Build(op Op) *Req {
 	case "UploadPart":
 		r := newReq("PUT", x.objPath(b, k))
 		r.Query.Set("uploadId", x.realUid(op.S("uid")))
-		r.Query.Set("partNumber", strconv.Itoa(op.I("n")))
+		r.Query.Set("partNumber", strconv.Itoa(x.Conc.PartNum(op.I("n"))))
 		body := x.Conc.Body(op.Atoms("body"))
 		r.setBody(body)
 		if op.S("md5") == "good" {
@@ -418,7 +418,7 @@ func (x *Exec) Build(op Op) *Req {
 		for _, p := range op.List("list") {
 			pp := Op(p.(map[string]interface{}))
 			fmt.Fprintf(&sb, "<Part><PartNumber>%d</PartNumber><ETag>&quot;%s&quot;</ETag></Part>",
-				pp.I("n"), md5hex(x.Conc.Body(pp.Atoms("body"))))
+				x.Conc.PartNum(pp.I("n")), md5hex(x.Conc.Body(pp.Atoms("body"))))
 		}
 		sb.WriteString("</CompleteMultipartUpload>")
 		r := newReq("POST", x.objPath(b, k))
